@@ -299,6 +299,13 @@ func classify(opName, msg string) string {
 	return ""
 }
 
+// classed records a symptom of a known finding class as a sub-violation of
+// its own, so that it can be listed (or fixed) by class without hiding any
+// unclassified failure of the same case.
+func classed(t *vlib.T, class, sub, format string, a ...any) {
+	t.SubViolation(" / "+sub, class, nil, format, a...)
+}
+
 func report(t *vlib.T, opName, msg, format string, a ...any) {
 	t.Outcome("FAIL " + opName)
 	if cl := classify(opName, msg); cl != "" {
